@@ -225,7 +225,10 @@ pub fn run(seed: u64, count: usize, thorough: bool, out: &mut Out) {
         for (view, name) in [(View::Seq, "seq"), (View::Rev, "rev"), (View::Index, "index"), (View::Mut, "mut")] {
             let mut q = p.clone();
             let w = crate::guarded(|| walk_pdb(&mut q, view)).unwrap_or(y("panic"));
-            out.case("C09", call("walk", vec![psx.clone()]), w, &format!("prop:walk-{name}"), nontrivial);
+            out.case("C09", call("walk", vec![psx.clone()]), w.clone(), &format!("prop:walk-{name}"), nontrivial);
+            if view == View::Seq {
+                out.case("C09gen", call("walk", vec![psx.clone()]), w, "corr:translator-T3", nontrivial);
+            }
             out.count(&format!("view:{name}"));
         }
         // index accessors one past the end return nothing
@@ -253,7 +256,8 @@ pub fn run(seed: u64, count: usize, thorough: bool, out: &mut Out) {
                 let pool = rayon::ThreadPoolBuilder::new().num_threads(threads).build().expect("pool");
                 for _ in 0..repeats {
                     let w = pool.install(|| crate::guarded(|| walk_pdb_par(&p)).unwrap_or(y("panic")));
-                    out.case("C09", call("walkpar", vec![psx.clone()]), w, "prop:walk-par", nontrivial);
+                    out.case("C09", call("walkpar", vec![psx.clone()]), w.clone(), "prop:walk-par", nontrivial);
+                    out.case("C09gen", call("walkpar", vec![psx.clone()]), w, "corr:translator-T3", nontrivial);
                     for level in ["atom", "conformer", "residue", "chain", "model"] {
                         let mut q = p.clone();
                         pool.install(|| bump(&mut q, level, true, false));
